@@ -210,6 +210,49 @@ func (w *rtWorker) scalar(k *kindDesc, num int, v uint64, fast bool, twoFill boo
 		w.viol(k.name, "consumed-ne-written", vc, num, fast, fmt.Sprintf("decoder consumed %d of %d bytes", dec.Offset(), len(src)),
 			map[string]any{"value": fmt.Sprintf("%#x", v), "bytes": fmt.Sprintf("%x", src)})
 	}
+	// the same field with more data behind it in the buffer
+	w.phase = "decode-with-trailing-data"
+	src2 := withTrailer(src)
+	dec2 := csproto.NewDecoder(src2)
+	if fast {
+		dec2.SetMode(csproto.DecoderModeFast)
+	}
+	if _, _, err := dec2.DecodeTag(); err != nil {
+		w.viol(k.name, "decode-tag-error:trailing-data", "-", num, fast, fmt.Sprintf("DecodeTag failed on a valid key for field %d: %v", num, err), nil)
+		return
+	}
+	got2, err := k.dec(dec2)
+	switch {
+	case err != nil:
+		w.viol(k.name, "decode-error:trailing-data", vc, num, fast, fmt.Sprintf("decoding a valid %s (%#x) followed by other fields failed: %v", k.name, v, err), map[string]any{"bytes": fmt.Sprintf("%x", src2)})
+	case got2 != v:
+		w.viol(k.name, "value-changed:trailing-data", vc, num, fast, fmt.Sprintf("wrote %s %#x followed by other fields, read back %#x", k.name, v, got2), map[string]any{"bytes": fmt.Sprintf("%x", src2)})
+	default:
+		if msg := afterField(dec2, len(src)); msg != "" {
+			w.viol(k.name, "consumed-ne-written:trailing-data", vc, num, fast, msg, map[string]any{"bytes": fmt.Sprintf("%x", src2)})
+		}
+	}
+}
+
+// trailer is what follows the field under test in the "more data behind it" decode: a fixed64 field and a string
+// field (17 bytes), enough for every multi-byte fast path of the decoder to be taken.
+var trailer = []byte{0x19, 0xEF, 0xBE, 0xAD, 0xDE, 0x0D, 0xF0, 0xFE, 0xCA, 0x22, 0x06, 't', 'r', 'a', 'i', 'l', '!'}
+
+// withTrailer returns src followed by trailer in a fresh buffer.
+func withTrailer(src []byte) []byte {
+	return append(append(make([]byte, 0, len(src)+len(trailer)), src...), trailer...)
+}
+
+// afterField checks that the decoder stands exactly behind the field (at n) and reads the trailer's first key next.
+func afterField(dec *csproto.Decoder, n int) string {
+	if dec.Offset() != n {
+		return fmt.Sprintf("decoder consumed %d bytes, the field is %d bytes long", dec.Offset(), n)
+	}
+	t, wt, err := dec.DecodeTag()
+	if err != nil || t != 3 || wt != csproto.WireTypeFixed64 {
+		return fmt.Sprintf("the key behind the field reads as (%d,%d,%v), written (3,fixed64)", t, wt, err)
+	}
+	return ""
 }
 
 // lenField evaluates a string or bytes field.
@@ -462,6 +505,32 @@ func (w *rtWorker) packed(p *packedDesc, num int, vs []uint64, fast bool) {
 	}
 	if dec.Offset() != len(src) || dec.More() {
 		w.viol(kind, "consumed-ne-written", vc, num, fast, fmt.Sprintf("decoder consumed %d of %d bytes", dec.Offset(), len(src)), nil)
+	}
+	// the same list with more data behind it in the buffer
+	w.phase = "decode-with-trailing-data"
+	src2 := withTrailer(src)
+	dec2 := csproto.NewDecoder(src2)
+	if fast {
+		dec2.SetMode(csproto.DecoderModeFast)
+	}
+	if _, _, err := dec2.DecodeTag(); err != nil {
+		return
+	}
+	got2, err := p.dec(dec2)
+	same = err == nil && len(got2) == len(vs)
+	for i := 0; same && i < len(vs); i++ {
+		same = p.elem.norm(got2[i]) == vs[i]
+	}
+	switch {
+	case err != nil:
+		w.viol(kind, "decode-error:trailing-data", vc, num, fast, fmt.Sprintf("decoding a valid packed %s list followed by other fields failed: %v", p.name, err), map[string]any{"values": hexList(vs)})
+	case !same:
+		w.viol(kind, "value-changed:trailing-data", vc, num, fast, fmt.Sprintf("packed %s list followed by other fields read back differently (%d vs %d elements)", p.name, len(got2), len(vs)),
+			map[string]any{"values": hexList(vs), "got": hexList(got2)})
+	default:
+		if msg := afterField(dec2, len(src)); msg != "" {
+			w.viol(kind, "consumed-ne-written:trailing-data", vc, num, fast, msg, nil)
+		}
 	}
 }
 
